@@ -45,7 +45,13 @@ CONSTANTS
     MaxCalls,      \* length of the Next/Advance programs
     Queries,       \* the query family of the configuration
     NTerms,        \* term ids 1..NTerms
-    FirstAdvanceOK(_)  \* may Advance be the very first call on this query (see MCSearchers)
+    FirstAdvanceOK(_), \* may Advance be the very first call on this query (see MCSearchers)
+    \* Repair switches.  FALSE = the code as found (the three deviations below are
+    \* modelled as they are, and refuted by TLC in configurations of their own);
+    \* TRUE = the obvious repair, for the day the code is fixed:
+    FixEmptySnapshot,  \* TfrAdv on a snapshot without segments returns nothing instead of indexing offsets[-1]
+    FixBoolAdvance,    \* BooleanSearcher.Advance re-advances the should searcher only when it trails the target
+    FixShouldMin       \* the unadorned disjunction searcher keeps the requested Min()
 
 Q == INSTANCE Query
 
@@ -131,10 +137,11 @@ HasBitmap(it) == it.ik = "bm"                             \* ActualBitmap() # ni
 (***************************************************************************)
 MkTfr(P) ==
     LET its == [i \in 1..NSeg |-> ZapIt(P, i)] IN
-    [k |-> "tfr", un |-> FALSE, its |-> its, orig |-> its, seg |-> 1, cur |-> Nil]
+    [k |-> "tfr", un |-> FALSE, its |-> its, orig |-> its, seg |-> 1, cur |-> Nil, umin |-> 0]
 
-MkUTfr(its) ==
-    [k |-> "tfr", un |-> TRUE, its |-> its, orig |-> its, seg |-> 1, cur |-> Nil]
+\* umin: what Min() reports (a term searcher reports 0 whatever disjunction it replaced)
+MkUTfr(its, umin) ==
+    [k |-> "tfr", un |-> TRUE, its |-> its, orig |-> its, seg |-> 1, cur |-> Nil, umin |-> umin]
 
 RECURSIVE TfrNext(_)
 TfrNext(s) ==
@@ -153,7 +160,7 @@ TfrAdv(s, id) ==
                    ELSE [s EXCEPT !.its = s.orig, !.seg = 1, !.cur = Nil]
               ELSE s
         si == SegOf(id)
-    IN  IF si = 0 THEN [s |-> s0, r |-> Panic]      \* offsets[-1]: index out of range
+    IN  IF si = 0 THEN [s |-> s0, r |-> IF FixEmptySnapshot THEN Nil ELSE Panic]   \* offsets[-1]: index out of range
         ELSE LET a  == ItAdv(s0.its[si], id - Off(si))
                  s1 == [s0 EXCEPT !.seg = si, !.its[si] = a.it]
              IN  IF a.r = Nil THEN TfrNext(s1)
@@ -249,7 +256,7 @@ MkConj(kids, none) ==
     IF Len(kids) = 0 THEN None
     ELSE IF Len(kids) > 1 /\ \A i \in DOMAIN kids : Optimizable(kids[i])
          THEN IF none
-              THEN MkUTfr(OptConj([i \in DOMAIN kids |-> TfrOf(kids[i])]))
+              THEN MkUTfr(OptConj([i \in DOMAIN kids |-> TfrOf(kids[i])]), 0)
               ELSE \* push-down: only when every child IS a reader (a wrapping
                    \* disjunction keeps its own struct around the replaced reader)
                    IF \A i \in DOMAIN kids : kids[i].k = "tfr"
@@ -263,13 +270,13 @@ MkConj(kids, none) ==
 MkDisj(kids, min, none) ==
     IF Len(kids) = 0 THEN None
     ELSE IF none /\ Len(kids) > 1 /\ min <= 1 /\ \A i \in DOMAIN kids : Optimizable(kids[i])
-         THEN MkUTfr(OptDisj([i \in DOMAIN kids |-> TfrOf(kids[i])]))
+         THEN MkUTfr(OptDisj([i \in DOMAIN kids |-> TfrOf(kids[i])]), IF FixShouldMin THEN min ELSE 0)
     ELSE [k |-> "disj", heap |-> (Len(kids) > HeapTakeover), kids |-> kids, min |-> min,
           currs |-> [i \in DOMAIN kids |-> Nil], inheap |-> {}, matching |-> << >>,
           init |-> FALSE]
 
 \* search.Searcher.Min()
-MinOfSearcher(s) == IF s.k = "disj" THEN s.min ELSE 0
+MinOfSearcher(s) == IF s.k = "disj" THEN s.min ELSE IF s.k = "tfr" THEN s.umin ELSE 0
 
 MkBool(mu, sh, mn) ==
     [k |-> "bool", must |-> mu, should |-> sh, mustnot |-> mn,
@@ -511,7 +518,8 @@ BoolAdv(s, id) ==
          THEN LET s1 == IF HasMust(s0) THEN LET a == Adv(s0.must[1], id) IN [s0 EXCEPT !.must[1] = a.s, !.cm = a.r] ELSE s0
                   \* the should searcher is advanced unconditionally, even when
                   \* currShould is already at or after the target
-                  s2 == IF HasShould(s1) THEN LET a == Adv(s1.should[1], id) IN [s1 EXCEPT !.should[1] = a.s, !.cs = a.r] ELSE s1
+                  s2 == IF HasShould(s1) /\ (~FixBoolAdvance \/ s1.cs = Nil \/ s1.cs < id)
+                        THEN LET a == Adv(s1.should[1], id) IN [s1 EXCEPT !.should[1] = a.s, !.cs = a.r] ELSE s1
                   s3 == IF HasMustNot(s2) /\ (s2.cn = Nil \/ s2.cn < id)
                         THEN LET a == Adv(s2.mustnot[1], id) IN [s2 EXCEPT !.mustnot[1] = a.s, !.cn = a.r]
                         ELSE s2
